@@ -260,6 +260,7 @@ def json_fields(P, R):
 # ------------------------------------------------------------------ R-BOUND
 def r_bound(P, R):
     f = P.func('dd.bdd.BDD._next_free_level')
+    au.set_parents(f.node)
     lower = upper = False
     computed = False
     for n in au.walk_no_defs(f.node):
@@ -300,12 +301,33 @@ def r_bound(P, R):
             'terminal at level 3 is above z', unit=f.unit.rel,
             line=f.lineno)
     # occupancy test
-    t = au.src(f.node).replace(' ', '')
-    if 'other=self._level_to_var.get(level)' in t and 'ifotherisNone' in t:
+    # occupancy: the level is returned only when no variable has it
+    occ = None
+    for n in au.walk_no_defs(f.node):
+        if isinstance(n, ast.Assign) and isinstance(
+                n.value, ast.Call) and au.call_name(
+                    n.value) == 'get' and au.chain(
+                        n.value.func.value) == ['self', '_level_to_var'] \
+                and isinstance(n.targets[0], ast.Name):
+            occ = n.targets[0].id
+    rets = [n for n in au.walk_no_defs(f.node) if isinstance(n, ast.Return)
+            and au.is_name(n.value, 'level')]
+    guarded = occ is not None and rets and all(
+        isinstance(getattr(r, '_parent', None), ast.If) and au.src(
+            r._parent.test).replace(' ', '') == f'{occ}isNone'
+        and r in r._parent.body for r in rets)
+    raises = [n for n in au.walk_no_defs(f.node) if isinstance(n, ast.Raise)
+              and au.raised_name(n) == 'ValueError']
+    if guarded and raises:
         R.holds('R-BOUND', f.qualname, 'an occupied level is refused')
+    elif occ is None or not rets:
+        R.undecided('R-BOUND', f.qualname, 'occupancy test',
+                    'unrecognised form')
     else:
         R.violation('R-BOUND', 'occupied', f.qualname, 'level',
-                    'an occupied level is no longer refused',
+                    'the level is returned on a path that is not guarded '
+                    'by "no variable has this level": an occupied level '
+                    'is accepted and two variables share it',
                     unit=f.unit.rel, line=f.lineno)
     # _check_var: same name, different level is refused
     c = P.func('dd.bdd.BDD._check_var')
